@@ -207,3 +207,37 @@ class Model:
             P = self.prolong_between(k, lv)
             blocks.append(P[:, self.ravel(k, cols)] if cols else sp.csr_matrix((P.shape[0], 0)))
         return sp.hstack(blocks, format='csr')
+
+    def represent_fine_thb(self):
+        """Independent THB representation matrix on the finest level, from the DEFINITION of truncation:
+        a level-k function is prolonged level by level; on every finer level j the coefficients of the
+        level-j functions whose support lies in Omega_j (active or deactivated there) are dropped.
+        Columns: active functions in canonical order."""
+        L = self.L
+        blocks = []
+        for k in range(L):
+            act, _ = self.functions(k)
+            cols = sorted(act)
+            n_k = int(np.prod(self.nfuncs(k)))
+            if not cols:
+                blocks.append(sp.csr_matrix((int(np.prod(self.nfuncs(L - 1))), 0)))
+                continue
+            C = sp.csr_matrix((np.ones(len(cols)), (self.ravel(k, cols), np.arange(len(cols)))), shape=(n_k, len(cols)))
+            for j in range(k + 1, L):
+                C = (self.prolong(j - 1) @ C).tolil()
+                a_j, d_j = self.functions(j)
+                drop = self.ravel(j, sorted(a_j | d_j))
+                if len(drop):
+                    C[drop, :] = 0
+                C = C.tocsr()
+            blocks.append(C)
+        return sp.hstack(blocks, format='csr')
+
+    def thb_to_hb(self):
+        """T with  I_hb @ T = I_thb  (unique: I_hb has full column rank)."""
+        IH = self.represent_fine_hb().toarray()
+        IT = self.represent_fine_thb().toarray()
+        T, res, rk, sv = np.linalg.lstsq(IH, IT, rcond=None)
+        T[np.abs(T) < 1e-13] = 0.0
+        return T
+
